@@ -165,6 +165,23 @@ GgswCellsOK(e, rec) ==
            ph == PhaseVec(ct, rec.aux.sk)
            w == Want(ea, idx, ct)
        IN \A x \in 1..e.n : CycDist(ph[x], w[x] % Pow2(ct.size * ct.b), Pow2(ct.size * ct.b)) <= Bk
+\* compressed blind-rotation key: LWE coefficient i (0-based) owns a compressed GGSW of the constant polynomial s_lwe[i]; its
+\* seeds are the draws of the i-th branch of the master stream, in the GGSW's cell order; every decompressed cell is valid
+BrkOK(e, rec) ==
+  LET cols == e.rank + 1
+      blk == e.dnum * cols
+      nl == e.nlwe
+      Bk == (e.bound10 + 9) \div 10
+  IN /\ Len(rec.stored) = nl * blk /\ Len(rec.drawn) = nl * blk /\ Len(rec.cells) = nl * blk /\ Len(rec.aux.sk_lwe) = nl
+     /\ \A k \in 1..(nl * blk) : rec.stored[k] = rec.drawn[k]
+     /\ \A i \in 0..(nl - 1) :
+          LET ea == [x \in DOMAIN e \cup {"aux"} |-> IF x = "aux" THEN [sk |-> rec.aux.sk, spt |-> [c \in 1..e.n |-> IF c = 1 THEN rec.aux.sk_lwe[i + 1] ELSE 0]]
+                                                      ELSE IF x = "layout" THEN "ggsw_c" ELSE e[x]]
+          IN \A j \in 1..blk :
+               LET ct == rec.cells[i * blk + j]
+                   ph == PhaseVec(ct, rec.aux.sk)
+                   w == Want(ea, j, ct)
+               IN \A x \in 1..e.n : CycDist(ph[x], w[x] % Pow2(ct.size * ct.b), Pow2(ct.size * ct.b)) <= Bk
 C19OK(e, rec) ==
   /\ rec.panic = "" /\ rec.ser_same
   /\ CASE e.layout = "glwe_c" -> /\ Len(rec.stored) = 1 /\ rec.stored[1] = rec.master
@@ -174,6 +191,7 @@ C19OK(e, rec) ==
                                  /\ \A r \in 0..(e.dnum - 1) : \A c \in 0..(rin - 1) : rec.stored[r * rin + c + 1] = rec.drawn[SeedIdx(e, r, c) + 1]
                                  /\ rec.cells = rec.ref
        [] e.layout \in {"ksk_c", "atk_c", "tsk_c", "tgk_c"} -> WrapOK(e, rec)
+       [] e.layout = "brk_c" -> BrkOK(e, rec)
        [] OTHER -> LET cols == e.rank + 1 IN
                    /\ Len(rec.stored) = e.dnum * cols /\ Len(rec.cells) = e.dnum * cols
                    /\ GgswCellsOK(e, rec)
